@@ -513,6 +513,12 @@ HINTS = {
     ("BinaryPigeonholePrinciple", "holes"): lambda rng, ctx: rng.choice([0, 1, 2, 3, 4, 5, 8, 9, -1]),
     ("PigeonholePrinciple", "pigeons"): lambda rng, ctx: rng.choice([0, 1, 2, 3, 4, 5, -1]),
     ("PigeonholePrinciple", "holes"): lambda rng, ctx: rng.choice([0, 1, 2, 3, 4, -1]),
+    ("PythagoreanTriples", "N"): lambda rng, ctx: rng.choice([0, 1, 4, 5, 10, 13, 17, 20, 26, 30, -1]),
+    ("VanDerWaerden", "N"): lambda rng, ctx: rng.choice([0, 1, 2, 3, 4, 5, 6, 8, 9, -1]),
+    ("VanDerWaerden", "k1"): lambda rng, ctx: rng.choice([1, 2, 3, 4, 0, -1]),
+    ("VanDerWaerden", "k2"): lambda rng, ctx: rng.choice([1, 2, 3, 4, 5, 0]),
+    ("VanDerWaerden", "ks"): lambda rng, ctx: [rng.choice([1, 2, 3, 3, 4, 0]) for _ in range(rng.choice([0, 0, 0, 1, 2, 3]))],
+    ("positive_int_seq", "value"): lambda rng, ctx: [rng.choice([1, 2, 3, 7, 0, -2, 2 ** 70]) for _ in range(rng.choice([0, 1, 2, 3, 4]))],
     ("non_negative_int", "value"): lambda rng, ctx: rng.choice([0, 1, -1, 5, -7, 2 ** 70]),
     ("positive_int", "value"): lambda rng, ctx: rng.choice([0, 1, -1, 5, -7, 2 ** 70]),
     ("CNFLinear", "lits"): lin_lits,
@@ -935,7 +941,13 @@ def make_call(rng, fn, manifest):
             f = getattr(mod, fn["py"])
             import copy
             args = copy.deepcopy(strip_omitted(real))
-            r = f(*args) if not fn["vararg"] else f(*args[0])
+            if fn["vararg"]:
+                # f(a, b, *seq, kwonly=…): parameters before the sequence are positional, those after it keyword-only
+                names = [p for p, ty in fn["params"] if ty["k"] != "erased" or probes.get(p) is not None]
+                i = names.index(fn["vararg"])
+                r = f(*(args[:i] + list(args[i])), **dict(zip(names[i + 1:], args[i + 1:])))
+            else:
+                r = f(*args)
             return "OK " + canon(r, fn["ret"])
         C = getattr(mod, cls)
         if fn["is_init"]:
